@@ -11,8 +11,22 @@ controller, finalizer / terminating, content, SSA manager present).
 
 What is an input (universally quantified in the theorems, supplied from the
 observation when replaying a real run): the function pipeline's output, the
-generated names (`names.NameGenerator` picks random suffixes), and Go's map
-iteration orders (GC order, apply order, render order).
+generated names (`names.NameGenerator` picks random suffixes), Go's map
+iteration orders (GC order, apply order, render order), and the set `St.miss` of
+composed resources that exist but are missing from the informer cache while this
+reconcile runs.
+
+Cached and live reads. The reconciler and both composers are built with two clients
+(`NewReconciler(c, uc, …)`, `NewFunctionComposer(cached, uncached, …)`,
+`NewPTComposer(cached, uncached)`): every read goes through the CACHED client except
+the fallback read of `ObserveComposedResources` / `AssociateTemplates`, which repeats
+a cached NotFound against the API server. `Req.getCached` is a read through the cache
+(NotFound for an object in `St.miss`), `Req.getObj` a live read. Cached reads of composed
+resources: first read of a reference (`observeFn`, `associatePT`), the name generator's
+availability probe (`renderFn`, `renderPT`: `names.NewNameGenerator(cached)`), the Get
+inside the P&T composer's `Apply` (`resource.NewAPIPatchingApplicator(cached)`). The reads
+of the XR itself are cached too; a stale (as opposed to missing) cached version of the XR
+or of a composed resource is outside the model.
 -/
 namespace Xp.C01
 
@@ -51,6 +65,11 @@ structure St where
   /-- ghost: objects controlled by someone else, recorded when the history starts; no API
   call reads or writes this field (used to state "foreign objects are left exactly as they were") -/
   foreign0 : List CObj := []
+  /-- composed resources that exist in the API server but are missing from the informer
+  cache during this reconcile (just created, informer lagging). An input of the reconcile:
+  the driver sets it per round, no request writes it. A read through the cache
+  (`Req.getCached`) answers NotFound for these; live reads and all writes see the store. -/
+  miss : List Ref := []
   deriving Repr, Inhabited
 
 structure Desired where
@@ -63,7 +82,8 @@ structure Desired where
 inductive Req where
   | getXR
   | addFinalizer (rv : Nat)                -- Update(XR) carrying the resourceVersion read
-  | getObj (kind name : String)
+  | getObj (kind name : String)             -- live (uncached) Get of a composed resource
+  | getCached (kind name : String)          -- Get of a composed resource through the informer cache
   | gcUpdate (kind name : String)          -- Update stripping the composite labels
   | delete (kind name : String)
   | patchRefs (ver : String) (refs : List Ref)   -- fn: server-side apply of spec.resourceRefs (all of API version `ver`)
@@ -110,6 +130,11 @@ def exec (s : St) : Req → St × Resp
     match findObj s.objs k n with
     | some o => (s, .found o)
     | none => (s, .notFound)
+  | .getCached k n =>
+    if (⟨k, n⟩ : Ref) ∈ s.miss then (s, .notFound) else
+    match findObj s.objs k n with
+    | some o => (s, .found o)
+    | none => (s, .notFound)
   | .gcUpdate k n =>
     match findObj s.objs k n with
     | some _ => (s, .ok)
@@ -135,10 +160,13 @@ def exec (s : St) : Req → St × Resp
       else ({ s with objs := mapObj s.objs k n (fun o => { o with annot := a, ctrl := .xr, content := c, ssa := true }) }, .ok)
     | none => ({ s with objs := s.objs ++ [⟨k, n, a, .xr, false, false, c, true⟩] }, .ok)
   | .create k n a c =>
-    if c = invalidContent then (s, .invalid) else
+    -- (reachable with an existing object only after a cache miss; the simulated API server of
+    -- the harness answers AlreadyExists before it validates: either way nothing is written)
     match findObj s.objs k n with
     | some _ => (s, .exists_)
-    | none => ({ s with objs := s.objs ++ [⟨k, n, a, .xr, false, false, c, false⟩] }, .ok)
+    | none =>
+      if c = invalidContent then (s, .invalid)
+      else ({ s with objs := s.objs ++ [⟨k, n, a, .xr, false, false, c, false⟩] }, .ok)
   | .mergePatch k n a c =>
     if c = invalidContent then (match findObj s.objs k n with | some _ => (s, .invalid) | none => (s, .notFound)) else
     match findObj s.objs k n with
@@ -151,7 +179,7 @@ def exec (s : St) : Req → St × Resp
   | .statusUpdate rv => if rv.isSome ∧ rv ≠ some s.xrRv then (s, .conflict) else (s, .ok)
 
 def isRead : Req → Bool
-  | .getXR | .getObj _ _ => true
+  | .getXR | .getObj _ _ | .getCached _ _ => true
   | _ => false
 
 def sem : Sem St Req Resp where
@@ -202,7 +230,8 @@ def obsInsert : Obs → String → CObj → Obs
 def obsLookup (obs : Obs) (n : String) : Option CObj :=
   (obs.find? (·.1 = n)).map (·.2)
 
-/-- ObserveComposedResources -/
+/-- ObserveComposedResources: `g.cached.Get`, and on NotFound ("not in the cache yet? try again
+without the cache") `g.uncached.Get` -/
 def observeFn (lrv : Nat) : List Ref → Obs → (Obs → P) → P
   | [], acc, k => k acc
   | r :: rs, acc, k =>
@@ -211,7 +240,7 @@ def observeFn (lrv : Nat) : List Ref → Obs → (Obs → P) → P
       if o.ctrl = .other then observeFn lrv rs acc k
       else if o.annot = "" then onError lrv
       else observeFn lrv rs (obsInsert acc o.annot o) k
-    .call (.getObj r.kind r.name) fun
+    .call (.getCached r.kind r.name) fun
       | .found o => found o
       | .notFound => .call (.getObj r.kind r.name) fun
         | .found o => found o
@@ -237,7 +266,7 @@ def renderFn (lrv : Nat) (obs : Obs) : List Desired → List String → List Nam
     | none =>
       match fresh with
       | [] => onError lrv   -- generator gave up
-      | n :: fresh' => .call (.getObj d.kind n) fun
+      | n :: fresh' => .call (.getCached d.kind n) fun   -- names.NewNameGenerator(cached)
         | .notFound => renderFn lrv obs ds fresh' (⟨d, n, true⟩ :: acc) k
         | .found _ => onError lrv   -- (the real generator retries with another random name; never observed)
         | _ => onError lrv
@@ -313,7 +342,8 @@ def assocInsert : Assoc → String → Ref → Assoc
 def assocLookup (a : Assoc) (n : String) : Option Ref :=
   (a.find? (·.1 = n)).map (·.2)
 
-/-- GarbageCollectingAssociator.AssociateTemplates (all templates named) -/
+/-- GarbageCollectingAssociator.AssociateTemplates (all templates named): `a.cached.Get`, and on
+NotFound `a.uncached.Get` -/
 def associatePT (lrv : Nat) (tmpl : List Desired) : List Ref → Assoc → (Assoc → P) → P
   | [], acc, k => k acc
   | r :: rs, acc, k =>
@@ -326,7 +356,7 @@ def associatePT (lrv : Nat) (tmpl : List Desired) : List Ref → Assoc → (Asso
         wcall lrv (.gcUpdate o.kind o.name) fun _ =>
         wcall lrv (.delete o.kind o.name) fun _ =>
         associatePT lrv tmpl rs acc k
-    .call (.getObj r.kind r.name) fun
+    .call (.getCached r.kind r.name) fun
       | .found o => found o
       | .notFound => .call (.getObj r.kind r.name) fun
         | .found o => found o
@@ -355,16 +385,18 @@ def renderPT (lrv : Nat) (a : Assoc) : List Desired → List String → List Ren
     | none =>
       match fresh with
       | [] => renderPT lrv a ds fresh (⟨d, "", false⟩ :: acc) k
-      | n :: fresh' => .call (.getObj d.kind n) fun
+      | n :: fresh' => .call (.getCached d.kind n) fun   -- names.NewNameGenerator(cached)
         | .notFound => renderPT lrv a ds fresh' (⟨d, n, true⟩ :: acc) k
         | _ => renderPT lrv a ds fresh' (⟨d, "", false⟩ :: acc) k
 
-/-- the apply loop of the P&T composer: Apply = Get; Create | (MustBeControllableBy; merge Patch) -/
+/-- the apply loop of the P&T composer: Apply = Get; Create | (MustBeControllableBy; merge Patch).
+The applicator is built on the cached client: an existing resource that is missing from the
+cache is "not found", the Create answers AlreadyExists and the reconcile errors. -/
 def applyPT (lrv : Nat) : List Rendered → Bool → (Bool → P) → P
   | [], synced, k => k synced
   | r :: rs, synced, k =>
     if !r.rendered then applyPT lrv rs false k else
-    .call (.getObj r.d.kind r.name) fun
+    .call (.getCached r.d.kind r.name) fun
       | .notFound => wcall lrv (.create r.d.kind r.name r.d.rname r.d.content) fun
         | .exists_ => onError lrv
         | .invalid => applyPT lrv rs false k     -- rejected by the API server: reported unsynced, the others still applied
